@@ -37,6 +37,8 @@ U = {
     "P": "http://www.w3.org/ns/prov#",
     "X": "http://www.w3.org/2001/XMLSchema#",
     "XI": "http://www.w3.org/2001/XMLSchema-instance",
+    # an application vocabulary with a fragment-style namespace, like PROV's own
+    "H": "http://h.example/voc#",
 }
 # a series of further namespaces (quantity cases: many namespaces offered under one prefix)
 for _i in range(14):
